@@ -249,3 +249,59 @@ def rtf_token_docs(rng, n):
         parts.append("}" * (depth if rng.random() < 0.8 else max(0, depth - 1)))
         docs.append("".join(parts).encode("latin-1", "replace"))
     return docs
+
+
+# ----------------------------------------------------------------------------- 7z header-aware mutations
+def sevenzip_header_mutants(rng, n_random=60, exhaustive=False):
+    """Small 7z archives (own writer, plain = uncompressed header) whose *header block* is mutated and whose
+    next-header size / CRC and start-header CRC are recomputed, so the mutation reaches the header parser instead
+    of being rejected by a checksum: every byte +1, truncation at every length, and random byte edits."""
+    import struct
+    import zlib
+    import sys
+    here = os.path.dirname(os.path.abspath(__file__))
+    if os.path.join(here, "builders") not in sys.path:
+        sys.path.insert(0, os.path.join(here, "builders"))
+    import sevenzip_writer as szw
+
+    def reseal(blob, hdr):
+        packed = blob[32:32 + struct.unpack("<Q", blob[12:20])[0]]
+        start = struct.pack("<QQI", len(packed), len(hdr), zlib.crc32(hdr) & 0xFFFFFFFF)
+        return blob[:8] + struct.pack("<I", zlib.crc32(start) & 0xFFFFFFFF) + start + packed + hdr
+
+    bases = [
+        ("solid2", szw.build_7z([("a.txt", "file", b"alpha alpha"), ("b.txt", "file", b"beta")], coders="copy")),
+        ("perfile3", szw.build_7z([("d", "dir", b""), ("d/a.txt", "file", b"one"), ("e.txt", "file", b""), ("f.md", "file", b"# two")],
+                                  groups=[1, 1], coders=["copy", "lzma2"], mtime=True)),
+        ("lzma", szw.build_7z([("x.txt", "file", b"x" * 40), ("y.csv", "file", b"a,b\n1,2\n")], coders="lzma", attrs="unix", dummy=3)),
+    ]
+    out = []
+    for tag, blob in bases:
+        off = 32 + struct.unpack("<Q", blob[12:20])[0]
+        hdr = blob[off:off + struct.unpack("<Q", blob[20:28])[0]]
+        out.append((f"7zhdr:{tag}:intact", reseal(blob, hdr)))
+        for i in range(len(hdr)):
+            out.append((f"7zhdr:{tag}:inc@{i}", reseal(blob, hdr[:i] + bytes([(hdr[i] + 1) & 0xFF]) + hdr[i + 1:])))
+        for i in range(1, len(hdr)) if exhaustive else rng.sample(range(1, len(hdr)), min(len(hdr) - 1, 12)):
+            out.append((f"7zhdr:{tag}:cut@{i}", reseal(blob, hdr[:i])))
+        vals = [0, 1, 2, 0x7F, 0x80, 0xC0, 0xE0, 0xFE, 0xFF]
+        if exhaustive:
+            for i in range(len(hdr)):
+                for v in vals:
+                    if hdr[i] != v:
+                        out.append((f"7zhdr:{tag}:set@{i}={v}", reseal(blob, hdr[:i] + bytes([v]) + hdr[i + 1:])))
+        for _ in range(n_random):
+            h = bytearray(hdr)
+            for _ in range(rng.choice([1, 1, 2, 3])):
+                i = rng.randrange(len(h))
+                r = rng.random()
+                if r < 0.5:
+                    h[i] = rng.choice(vals)
+                elif r < 0.7:
+                    del h[i]
+                elif r < 0.85:
+                    h.insert(i, rng.choice(vals))
+                else:
+                    h[i] = (h[i] - 1) & 0xFF
+            out.append((f"7zhdr:{tag}:rnd", reseal(blob, bytes(h))))
+    return out
